@@ -462,7 +462,7 @@ func crossGenFiles() map[string]string {
 	pre := func(name, preamble, header, body string) string {
 		return "abi <abi/4.0>,\n\ninclude <tunables/global>\n\n" + preamble + "profile " + name + " " + header + "{\n  include <abstractions/base>\n\n  @{exec_path} mr,\n\n" + body + "\n  include if exists <local/" + name + ">\n}\n"
 	}
-	return map[string]string{
+	res := map[string]string{
 		"aa-vgen-xhost":   mk("aa-vgen-xhost", "  /usr/bin/own rPUx,\n\n  #aa:stack X zz-vgen-xtarget\n"),
 		"zz-vgen-xtarget": mk("zz-vgen-xtarget", "  /usr/bin/late rPUx,\n  /usr/bin/late2 rUx,\n  /usr/bin/keep rPx,\n"),
 		"zz-vgen-xhost":   mk("zz-vgen-xhost", "  #aa:stack X aa-vgen-xtarget\n"),
@@ -487,13 +487,22 @@ func crossGenFiles() map[string]string {
 		"ee-vgen-hist-stackpre2":  mk("ee-vgen-hist-stackpre2", "  /etc/host4 r,\n\n  #aa:stack X zz-vgen-hist-target-ext\n\n  /etc/host4b r,\n\n  #aa:stack zz-vgen-hist-target\n"),
 		"zz-vgen-hist-uselib-ext": pre("zz-vgen-hist-uselib-ext", "@{exec_path} = @{lib}/zz-vgen-hist-uselib-ext\n", "@{exec_path} ", "  /etc/hist r,\n"),
 		"dd-vgen-hist-execpre":    mk("dd-vgen-hist-execpre", "  #aa:exec zz-vgen-hist-uselib-ext zz-vgen-hist-uselib\n"),
+		// entry points that also carry an exec mode, stacked with and without X
+		"zz-vgen-hist-entry-ix": pre("zz-vgen-hist-entry-ix", "@{exec_path} = @{bin}/zz-vgen-hist-entry-ix\n", "@{exec_path} ", "  /etc/entry r,\n  /usr/bin/entry-tool rPx,\n"),
+		"ff-vgen-hist-stackix":  mk("ff-vgen-hist-stackix", "  /etc/host5 r,\n\n  #aa:stack X zz-vgen-hist-entry-ix\n"),
+		"gg-vgen-hist-stackix":  mk("gg-vgen-hist-stackix", "  /etc/host6 r,\n\n  #aa:stack zz-vgen-hist-entry-ix\n"),
 		// exec directives: default, explicit and two-target forms over the same targets
 		"aa-vgen-hist-exec1": mk("aa-vgen-hist-exec1", "  #aa:exec zz-vgen-hist-uselib\n"),
 		"bb-vgen-hist-exec2": mk("bb-vgen-hist-exec2", "  #aa:exec U zz-vgen-hist-uselib\n\n  /etc/between r,\n"),
 		"cc-vgen-hist-exec3": mk("cc-vgen-hist-exec3", "  /etc/before r,\n\n  #aa:exec pu zz-vgen-hist-uselib aa-vgen-hist-name1\n"),
 		// dbus directives with names that are patterns, variables, explicit interfaces and paths
 		"cc-vgen-hist-dbus": mk("cc-vgen-hist-dbus", "  #aa:dbus own bus=session name=org.a11y.{B,b}us\n  #aa:dbus own bus=system name=org.vgen.Svc path=/org/vgen/Svc interface=org.vgen.Iface interface+=org.vgen.Extra\n  #aa:dbus talk bus=system name=org.gtk.vfs.mountpoint_@{int} label=gvfsd\n  #aa:dbus talk bus=session name=org.vgen.Peer label=vgen-peer interface=org.vgen.PeerIface path=/org/vgen/Peer\n  #aa:dbus common bus=system name=org.freedesktop.{S,s}ecret{,s} label=secretd\n"),
+		// the same interfaces given in the other order (interface+= before interface=), and on a talk directive
+		"dd-vgen-hist-dbus2": mk("dd-vgen-hist-dbus2", "  #aa:dbus own bus=system name=org.vgen.Svc2 path=/org/vgen/Svc2 interface+=org.vgen.Extra2 interface=org.vgen.Iface2\n  #aa:dbus talk bus=session name=org.vgen.Peer2 label=vgen-peer interface+=org.vgen.PeerExtra2 interface=org.vgen.PeerIface2\n"),
 	}
+	// the entry point of the -ix target also grants execution (mrix), as 97 shipped profiles do
+	res["zz-vgen-hist-entry-ix"] = strings.Replace(res["zz-vgen-hist-entry-ix"], "  @{exec_path} mr,", "  @{exec_path} mrix,", 1)
+	return res
 }
 
 // stackTargets lists the profiles a source text stacks (transitively resolved by the caller).
